@@ -345,7 +345,7 @@ func (c *c19) transaction(sh stShape, ss sigShape, nilState bool) {
 
 func (c *c19) params(b pBase, mutName string) {
 	spec := b.spec()
-	if mutName != "base" {
+	if mutName != "base" && mutName != "part-empty" {
 		ok := false
 		for _, m := range pMuts(b) {
 			if m.name == mutName {
@@ -359,6 +359,11 @@ func (c *c19) params(b pBase, mutName string) {
 	p, err := spec.build()
 	if err != nil {
 		panic(err)
+	}
+	if mutName == "part-empty" {
+		// an allocated but empty participant slot (NewParams refuses it; parameters built directly or
+		// by NewParamsUnsafe may carry one): empty is not nil, the clone needs a map of its own
+		p.Parts[len(p.Parts)-1] = map[wallet.BackendID]wallet.Address{}
 	}
 	rp := replay{Harness: "values", Prop: "C19", Check: "clone", Type: "Params", Base: b.name(), A: mutName}
 	var cl *channel.Params
@@ -394,7 +399,7 @@ func (c *c19) params(b pBase, mutName string) {
 	})
 }
 
-var c19ParamMuts = []string{"base", "aux", "part-add", "nonce^top"}
+var c19ParamMuts = []string{"base", "aux", "part-add", "nonce^top", "part-empty"}
 
 func runC19(t *testing.T, res *report.Result) {
 	c := &c19{res: res}
